@@ -366,6 +366,32 @@ func validateIds(ids []string) error {
 	return nil
 }
 
+// validateObjectEntries makes sure that every entry of a public key or service array is an object:
+// anything else would be skipped by document.ParsePublicKeys/ParseServices and escape validation.
+func validateObjectEntries(arr []interface{}) error {
+	for _, e := range arr {
+		if _, ok := e.(map[string]interface{}); !ok {
+			return errors.New("array entry is not an object")
+		}
+	}
+
+	return nil
+}
+
+// validateOptionalObjectArray validates an optional document section: when present it has to be an array of objects.
+func validateOptionalObjectArray(entry interface{}) error {
+	if entry == nil {
+		return nil
+	}
+
+	arr, ok := entry.([]interface{})
+	if !ok {
+		return errors.New("expected array of interfaces")
+	}
+
+	return validateObjectEntries(arr)
+}
+
 func getRequiredArray(entry interface{}) ([]interface{}, error) {
 	arr, ok := entry.([]interface{})
 	if !ok {
